@@ -809,7 +809,8 @@ def check_C03(tier: str, seed: int) -> int:
 
 
 # ----------------------------------------------------------------------------- C02: every operation's VJP
-OPTABLE_GROUPS = ["binary", "unary", "reduce", "matmul", "getitem", "setitem", "whereout", "move"]
+OPTABLE_GROUPS = ["binary", "unary", "reduce", "matmul", "getitem", "setitem", "whereout", "move",
+                  "activation", "cumulative", "sequence", "einsum", "conv", "maxpool", "loss"]
 
 
 def _uncovered_operations(seen_ops: set, kernel_rows: set):
@@ -830,7 +831,9 @@ def _uncovered_operations(seen_ops: set, kernel_rows: set):
              "Transpose": "transpose", "Tensor_Transpose_Property": "T", "SwapAxes": "swapaxes", "MoveAxis": "moveaxis",
              "Squeeze": "squeeze", "ExpandDims": "expand_dims", "Ravel": "ravel", "Flatten": "flatten", "BroadcastTo": "broadcast_to",
              "Repeat": "repeat", "Roll": "roll", "Concatenate": "concatenate", "Stack": "stack", "Where": "where", "EinSum": "diag",
-             "ReLu": "relu", "ApplyMask": "uout", "UnView": "setitem", "Absolute": "abs"}
+             "ReLu": "relu", "ApplyMask": "uout", "UnView": "setitem", "Absolute": "abs", "CumSum": "cumsum", "CumProd": "cumprod",
+             "AddSequence": "addseq", "MultiplySequence": "mulseq", "ConvND": "conv", "MaxPoolND": "maxpool",
+             "MarginRanking": "margin_ranking", "MulticlassHinge": "multiclass_hinge"}
     out = []
     for c in sorted(set(subclasses(Operation)), key=lambda k: k.__name__):
         if getattr(c, "__abstractmethods__", None):
@@ -882,6 +885,7 @@ def check_C02(tier: str, seed: int) -> int:
                 total += 1
                 for e in b:
                     seen_ops.add(e["stmt"].get("f", e["stmt"]["k"]))
+                    seen_ops.add(e["stmt"]["k"])
                 r = replay.compare(b)
                 if r is None:
                     continue
